@@ -52,7 +52,7 @@ def parse_obs(o):
     return d
 
 
-LNAMES = {0: 'Start', 1: 'Step', 3: 'Cancel', 4: 'Mark', 5: 'Fire'}
+LNAMES = {0: 'Start', 1: 'Step', 3: 'Cancel', 4: 'Mark', 5: 'Fire', 6: 'Tick'}
 OPS = {0: 'Get', 1: 'Add', 2: 'Drop', 3: 'Take', 4: 'Close', 5: 'Status'}
 GMODES = {0: 'get', 1: 'try_get', 2: 'timeout_get(None)', 3: 'timeout_get(0)', 4: 'timeout_get(700us)'}
 RMODES = {0: 'remove', 1: 'try_remove', 2: 'timeout_remove(None)', 3: 'timeout_remove(0)', 4: 'timeout_remove(700us)'}
